@@ -3,7 +3,8 @@ import Driver.Util
 -- engine: rx
 /-! Engine `rx` (C02): runs `N2k.Rx.rx` of `Model/Rx.lean` on received frames.
 ops: `reset <t32|t64> <slots> <mode> <origin>` (mode 0 = handle all, 1 = only known messages; the node is polled
-     for 700 ms after construction at `origin`), `t <ms>`, `rx <idhex> <len> <hex>`, `q` (slot dump). -/
+     for 700 ms after construction at `origin`), `sflist <0|1> <pgn>…` / `fplist <0|1> <pgn>…` (0 = Set…, 1 = Extend…Messages),
+     `t <ms>`, `rx <idhex> <len> <hex>` (incl. TP.CM RTS/BAM frames), `q` (slot dump). -/
 namespace Driver.Rx
 open N2k.Rx Driver
 
@@ -20,7 +21,7 @@ def msgStr (m : Msg) : String :=
 
 def slotStr (s : Slot) : String :=
   if s.free then "F"
-  else s!"{s.pgn}.{s.src}.{s.dst}.{s.prio}.{s.lastFrame}.{s.data.length}.{s.dataLen}.{s.msgTime}"
+  else s!"{s.pgn}.{s.src}.{s.dst}.{s.prio}.{s.lastFrame}.{s.data.length}.{s.dataLen}.{s.msgTime}{if s.tp then ".T" else ""}"
 
 def step (es : Option ES) (w : List String) : Option ES × String :=
   match w with
@@ -44,6 +45,14 @@ def step (es : Option ES) (w : List String) : Option ES × String :=
         let r := rx s.cfg s.st s.now (decode id len bytes)
         (some { s with st := r.1 }, match r.2 with | some m => msgStr m | none => "-")
       | _, _, _ => (es, "bad-op")
+    | "sflist" :: g :: pgns => match nat? g, pgns.mapM nat? with
+      | some 0, some ps => (some { s with cfg := { s.cfg with sf0 := some ps } }, "ok")
+      | some 1, some ps => (some { s with cfg := { s.cfg with sf1 := some ps } }, "ok")
+      | _, _ => (es, "bad-op")
+    | "fplist" :: g :: pgns => match nat? g, pgns.mapM nat? with
+      | some 0, some ps => (some { s with cfg := { s.cfg with fp0 := some ps } }, "ok")
+      | some 1, some ps => (some { s with cfg := { s.cfg with fp1 := some ps } }, "ok")
+      | _, _ => (es, "bad-op")
     | ["q"] => (es, " ".intercalate ((List.range s.st.N).map fun i => slotStr (s.st.slot i)))
     | _ => (es, "bad-op")
 
